@@ -191,7 +191,8 @@ def canon(el, strip_ws=True):
     kids = elems(el)
     texts = [el.text or ""] + [(c.tail or "") for c in kids]
     # comments / PIs would be lost here; pyxform emits none
-    if kids and strip_ws and all(not t.strip() for t in texts):
+    if kids and strip_ws and all(not t.strip() for t in texts) and not all(local(c) == "output" for c in kids):
+        # (a label, hint or value made of <output/> elements only is text: white space between them is shown to the user)
         texts = None
     return (el.tag, tuple(sorted(el.attrib.items())), tuple(texts) if texts is not None else None,
             tuple(canon(c, strip_ws) for c in kids))
